@@ -416,6 +416,55 @@ def build_matrix_builder(kind: str, container: Optional[str] = None) -> LayerBui
             b.examples[f"rq_pl{k}"] = [(bytes([0x31, k, x]) + b"\x41\x42\x43\x09").hex() for x in raw]
             b.examples[f"rs_pl{k}"] = [(bytes([0x71, k, x]) + b"\x41\x42\x43\x09").hex() for x in raw]
             k += 1
+    elif kind == "features":
+        # legal constructs the shipped examples do not use
+        u16 = b.dop("m_u16", b.slt(bits=16))
+        # (1) TABLE-KEY bound statically to a row (TABLE-ROW-REF) followed by a TABLE-STRUCT
+        s1 = b.structure("ft_s1", [b.value("p", u8)])
+        s2 = b.structure("ft_s2", [b.value("q", u16), b.value("r", u8)])
+        t = b.table("ft_t", u8, [("row_a", 1, s1), ("row_b", 2, s2), ("row_c", 7, u16)])
+        for row in t.table_rows_raw[:3]:
+            key = b.table_key("key", t, row=row)
+            _svc2(b, k, f"ft{k}", [b.value("which", u8)], [key, b.table_struct("row", key), b.value("post", u8)])
+            b.examples[f"rs_ft{k}"] = [bytes([0x71, k, 0x12, 0x34, 0x56, 0x09])[:(4 if row.short_name == "row_a" else 6)].hex(),
+                                       bytes([0x71, k, 0x12, 0x34, 0x56, 0x09]).hex()]
+            k += 1
+        # (2) a response that echoes request bytes beyond the constant part of the request (RoutineControl style)
+        rq = b.request(f"rq_ft{k}", [b.coded_const("sid", 0x31), b.coded_const("sub", k), b.value("id", u16)])
+        rs = b.response(f"rs_ft{k}", [b.coded_const("sid", 0x71), b.matching_request("echo", 1, 3), b.value("v", u8)])
+        b.service(f"ft{k}", rq, [rs], [])
+        b.examples[f"rq_ft{k}"] = [bytes([0x31, k, 0x12, 0x34]).hex()]
+        b.examples[f"rs_ft{k}"] = [bytes([0x71, k, 0x12, 0x34, 0x05]).hex()]
+        k += 1
+        # (3) fields whose items can consume zero bytes (the item length is given by a length key outside the field)
+        lk = b.length_key(f"len{k}", u8)
+        item = b.structure(f"ft_item{k}", [b.value("v", b.dop(f"ft_pl{k}", b.param_length("A_BYTEFIELD", lk)))])
+        _svc2(b, k, f"ft{k}", [lk, b.value("items", b.eopdu_field(f"ft_f{k}", item))],
+              [b.value("pre", u8)])
+        b.examples[f"rq_ft{k}"] = [bytes([0x31, k, 8, 1, 2, 3]).hex(), bytes([0x31, k, 0]).hex(), bytes([0x31, k, 0, 1]).hex()]
+        k += 1
+        lk = b.length_key(f"len{k}", u8)
+        item = b.structure(f"ft_item{k}", [b.value("v", b.dop(f"ft_pl{k}", b.param_length("A_BYTEFIELD", lk)))])
+        _svc2(b, k, f"ft{k}", [lk, b.value("items", b.dynend_field(f"ft_f{k}", item, u8, "255")), b.value("post", u8)],
+              [b.value("pre", u8)])
+        b.examples[f"rq_ft{k}"] = [bytes([0x31, k, 8, 1, 2, 255, 9]).hex(), bytes([0x31, k, 0, 1, 255, 9]).hex(),
+                                   bytes([0x31, k, 0, 1]).hex()]
+        k += 1
+        # (4) float objects whose length comes from a length key
+        for base in ("A_FLOAT32", "A_FLOAT64"):
+            lk = b.length_key(f"len{k}", u8)
+            d = b.dop(f"ft_fl{k}", b.param_length(base, lk))
+            _svc2(b, k, f"ft{k}", [lk, b.value("v", d)], [b.value("pre", u8)])
+            n = 4 if base == "A_FLOAT32" else 8
+            b.examples[f"rq_ft{k}"] = [(bytes([0x31, k, 8 * n]) + bytes(n)).hex(), (bytes([0x31, k, 16]) + bytes(n)).hex()]
+            k += 1
+        # (5) multiplexer cases with unbounded (INFINITE) limits
+        c1 = b.structure("ft_c1", [b.value("x", u8)])
+        c2 = b.structure("ft_c2", [b.value("y", u16)])
+        m = b.mux("ft_m", u8, [("low", None, 4, c1), ("mid", 5, 9, None), ("high", 10, None, c2)], default=None)
+        _svc2(b, k, f"ft{k}", [b.value("sel", m)], [b.value("sel", m), b.value("after", u8)])
+        b.examples[f"rq_ft{k}"] = [bytes([0x31, k, 2, 7]).hex(), bytes([0x31, k, 200, 1, 2]).hex(), bytes([0x31, k, 7]).hex()]
+        k += 1
     elif kind == "ambig":
         # services whose coding objects cannot be told apart by their constant parts: two positive responses of the
         # same shape, negative responses that differ only in (overlapping) NRC lists and in length
@@ -480,7 +529,7 @@ def build_matrix_builder(kind: str, container: Optional[str] = None) -> LayerBui
     return b
 
 
-MATRIX_KINDS = ["minmax", "leading", "strings", "ints", "structs", "lengths", "ambig", "compu", "consts"]
+MATRIX_KINDS = ["minmax", "leading", "strings", "ints", "structs", "lengths", "ambig", "compu", "consts", "features"]
 
 
 def build_matrix_layer(kind: str):
